@@ -99,6 +99,8 @@ def make_field(rng, n, n_pol, noise, amp):
     if rng.integers(8) == 0:                              # real-dtype field (and noise)
         s = np.real(s).copy()
         nz = None if nz is None else np.real(nz).copy()
+    s = core.degenerate_rows(rng, s, every=8, rows_only=True)
+    nz = None if nz is None else core.degenerate_rows(rng, nz, every=5, rows_only=True)
     return T.optical_signal(s, nz)
 
 
